@@ -899,8 +899,9 @@ class LogicalLinkController(object):
     def close(self, socket):
         if not isinstance(socket, tco.TransmissionControlObject):
             raise err.Error(errno.ENOTSOCK)
-        if socket.is_bound:
-            self.sap[socket.addr].remove_socket(socket)
+        sap = self.sap[socket.addr] if socket.is_bound else None
+        if sap is not None:
+            sap.remove_socket(socket)
         else:
             socket.close()
 
